@@ -711,6 +711,24 @@ SPLIT_PROBES: T.List[T.Tuple[str, T.Dict[str, T.Any], int]] = [
 ]
 
 
+def _nest(kinds: str, inner: str) -> str:
+    """argument lists opened one inside the other on one line: c = call, m = method call, a = array, d = dict, k = kwarg call"""
+    head, tail = '', ''
+    for i, k in enumerate(kinds):
+        o, c = {'c': (f'fn{i}(', ')'), 'm': (f'obj{i}.meth(', ')'), 'a': ('[', ']'), 'd': (f"{{'key{i}': ", '}'),
+                'k': (f'fn{i}(first, kw{i}: ', ')')}[k]
+        head += o
+        tail = c + tail
+    return 'r = ' + head + inner + tail + '\n'
+
+
+# inputs that need as many or more successive splits than the regeneration loop has rounds (5): negative controls on the
+# unchanged tree (the output of the last round must be a fixed point), for every shape of nested list
+_LONG = "'" + 'x' * 70 + "', 'y'"
+PROBES += [(_nest(kinds, inner), over, ()) for kinds in ('ccccc', 'cccccc', 'cccccccc', 'aaaaaa', 'dcdcdc', 'mamaca', 'kkkkkc', 'cacdkm', 'cccc')
+           for inner, over in ((_LONG, {}), ("'" + 'x' * 30 + "', 'yyyyyyyyyy'", {'max_line_length': 40}))]
+
+
 def worker_probes(_task: int) -> dict:
     assert ENV is not None
     silence_mlog()
@@ -1405,7 +1423,8 @@ def main() -> int:
                  'cli:multi-victim-would-change',
                  'probe:run', 'probe:cli-run', 'probe:split-run', 'contract:final-newline', 'cases:corpus', 'cases:gen', 'accepted:literal-respelled',
                  'pass:TrimWhitespaces.visit_StringNode', 'pass:TrimWhitespaces.visit_FunctionNode',
-                 'pass:ArgumentFormatter.visit_ArgumentNode', 'pass:ComputeLineLengths.visit_ArgumentNode', 'rounds:2'):
+                 'pass:ArgumentFormatter.visit_ArgumentNode', 'pass:ComputeLineLengths.visit_ArgumentNode', 'rounds:2', 'rounds:5',
+                 'rounds:limit-hit-still-wanting-more'):
         chk.require(name, 1)
     chk.require('cases:gen', 600 if quick else 10000)
     chk.notes['cpu_seconds_by_workload'] = {k: round(v, 1) for k, v in walls.items()}
